@@ -81,6 +81,32 @@ def rule_validator_state(ctx, rid="R7.1b"):
     return r
 
 
+def store_key_verdict(prog, f, w):
+    """The key of the store write `self.store[K] = doc` in resolve_remote must be the very URI the function was asked for:
+    its caller looked the store up under that value (`self.store[url]` in resolve_from_url) and will again.
+    Returns None if fine, else a description."""
+    node = w.node
+    tgt = None
+    if isinstance(node, ast.Assign) and len(node.targets) == 1 and isinstance(node.targets[0], ast.Subscript):
+        tgt = node.targets[0].slice
+    elif isinstance(node, ast.Call) and node.args:
+        tgt = node.args[0]
+    if tgt is None:
+        return "key not found in `%s`" % w.text
+    if len(f.params) < 2:
+        return "resolve_remote has no uri parameter"
+    up = f.params[1]
+    if not (isinstance(tgt, ast.Name) and tgt.id == up):
+        return "the key `%s` is not the requested URI `%s`" % (norm(tgt)[:40], up)
+    cfg = cfg_of(f)
+    rd = reaching_defs(cfg)
+    for n in cfg.live:
+        if n.ast is node:
+            if set(rd[n.id].get(up, ())) != {cfg.entry.id}:
+                return "`%s` is re-bound before it is used as the store key" % up
+    return None
+
+
 def rule_failed_retrieval(ctx, rid="R7.3"):
     prog = ctx.prog
     calls = calls_of(prog)
@@ -105,6 +131,12 @@ def rule_failed_retrieval(ctx, rid="R7.3"):
             wheres = [wh for (_t, wh) in n.trys]
             if "handler" in wheres or "finally" in wheres:
                 r.fail("%s|store-write-in-%s" % (f.qual, wheres[-1]), site(f, n.ast), "store written inside an exception handler / finally block")
+                continue
+            kv = store_key_verdict(prog, f, w)
+            if kv is not None:
+                r.fail("%s|store-key" % f.qual, site(f, n.ast),
+                       "%s: the document retrieved for one URI is filed under another, so a later reference to that other URI is served "
+                       "this document -- the answer depends on what was retrieved before" % kv)
                 continue
             val = w.node.value if isinstance(w.node, ast.Assign) else None
             if not isinstance(val, ast.Name):
@@ -209,7 +241,7 @@ def run(ctx):
         "values, documents; (R7.1b) no field of validator/checker objects is written during validation; "
         "(R7.2) typestate over the CFG with exception and generator-close edges: every push_scope is undone "
         "on every exit; only push/pop write the stack; (R7.3) the store is written only with a retrieved "
-        "document, outside handlers; (R7.4) caches are only called. Not decided: prompt finalisation of "
+        "document, outside handlers; (R7.4) caches are only called; (R7.6) nothing memoised reads the scope stack. Not decided: prompt finalisation of "
         "abandoned generators by the interpreter, and equality of concrete histories.")
     ctx.assume("CPython finalises an abandoned generator promptly (reference counting), running its finally blocks")
     ctx.assume("functools.lru_cache does not cache exceptions (stdlib)")
@@ -221,3 +253,8 @@ def run(ctx):
     rule_failed_retrieval(ctx)
     rule_caches_only_called(ctx)
     rule_no_held_iterator(ctx)
+    scope.rule_memo_scope_free(ctx, "R7.6")
+    # R7.7: store keys are URIs up to an empty fragment and nothing coarser: a coarser key serves the document retrieved for one
+    # URI to a later reference to another (history dependence)
+    from .c15 import rule_uridict
+    rule_uridict(ctx, "R7.7")
